@@ -3,6 +3,9 @@ import TantivyModel.Model.Store.Store
 import TantivyModel.Model.Store.Version
 import TantivyModel.Model.Store.VInt32
 import TantivyModel.Model.Store.JsonNumber
+import TantivyModel.Model.Store.DocPath
+import TantivyModel.Model.Store.Framing
+import TantivyModel.Model.Store.Utf8
 /-!
 Line protocol of the C09 model (doc store). Compression is `none` in every whole-file request
 (the harness feeds lz4/zstd stores block-wise after decompressing with the real codec).
@@ -134,7 +137,10 @@ def parseSeg (s : String) : Option SourceSegment :=
   match s.splitOn ":" with
   | [fileHex, bits] =>
     (bytesOfHex fileHex).bind fun file => (openStore file).map fun sf =>
-      { store := sf, codec := Compression.none, alive := aliveOf bits, hasDeletes := bits != "all" && bits.toList.any (· == '0') }
+      -- the segment as `open_with_custom_alive_set` presents it: `has_deletes()` is computed from
+      -- the alive set over `max_doc` documents
+      let maxDoc := ((checkpointsOf sf.index).getLast?.map (·.docEnd)).getD 0
+      SourceSegment.ofReader sf Compression.none none (if bits == "all" then none else some (aliveOf bits)) maxDoc
   | _ => none
 
 def handle : List String → String
@@ -145,6 +151,48 @@ def handle : List String → String
     match n.toNat? with
     | some n => hexOfBytes (vintEnc n)
     | none => "bad-op"
+  | ["ops", cap, fh, spec] =>
+    -- a mix of `get_document_bytes` (`g<doc>`) and `iter_raw` (`i<alive bits>`, `iall`) on one reader,
+    -- all through its block cache: statistics, and whether every answer equals the uncached one
+    let parseOp (t : String) : Option ReaderOp :=
+      match t.toList with
+      | 'g' :: r => (String.ofList r).toNat?.map ReaderOp.get
+      | 'i' :: r => if String.ofList r == "all" then some (.iter []) else some (.iter (r.map (· == '1')))
+      | _ => none
+    match cap.toNat?, bytesOfHex fh, (spec.splitOn ";").mapM parseOp with
+    | some cap, some file, some ops =>
+      match openStore file with
+      | some sf =>
+        let r := runOps Compression.none sf (BlockCache.new cap) ops
+        let plain := ops.map (ReaderOp.plain Compression.none sf)
+        s!"{r.2.hits}/{r.2.misses}/{r.2.entries.length}/{showBool (r.1 == plain)}"
+      | none => "err"
+    | _, _, _ => "bad-op"
+  | ["docdecs", h] =>
+    -- deserialization with the UTF-8 check of `read_to_string`
+    match bytesOfHex h with
+    | some bs =>
+      match deserializeDocStrict bs with
+      | some d => showDoc d
+      | none => "err"
+    | none => "bad-op"
+  | ["frame", lens] =>
+    -- the 4-byte header lz4 / zstd blocks start with, for a block of documents of these lengths
+    match natList lens with
+    | some ls => hexOfBytes (u32le (blockLenOf ls))
+    | none => "bad-op"
+  | ["cdoc", t] =>
+    -- `CompactDoc::add_field_value` of one value (canonical text, on-disk reading of floats) into an
+    -- empty document: node_data, the address, and the value read back (written as on disk)
+    match parseValue t.toList with
+    | some (d, []) =>
+      let m := diskToMem d
+      let r := cdAdd [] m
+      let back := match cdRead (r.1.length + 2) r.1 r.2 with
+        | some v => showValue (memToDisk v)
+        | none => "err"
+      s!"{hexOfBytes r.1}|{r.2.ty}:{r.2.addr}|{back}"
+    | _ => "bad-op"
   | ["jsonnum", n] =>
     -- how an integer of a JSON document is typed (canonical prefix of the stored value)
     match n.toInt? with
